@@ -22,9 +22,14 @@ func FromRawDN(dn []byte) string {
 func FromRDNSequence(rdns pkix.RDNSequence) string {
 	var ss []string
 	for i := len(rdns) - 1; i >= 0; i-- {
+		// RFC 4514, 2.2: the attributes of a multi-valued RDN are joined by '+'
+		var atvs []string
 		for _, atv := range rdns[i] {
 			name := x500AttrTypeFromOID(atv.Type)
-			ss = append(ss, fmt.Sprintf("%s=%s", name, rdnAttrValue(atv.Value)))
+			atvs = append(atvs, fmt.Sprintf("%s=%s", name, rdnAttrValue(atv.Value)))
+		}
+		if len(atvs) > 0 {
+			ss = append(ss, strings.Join(atvs, "+"))
 		}
 	}
 	return strings.Join(ss, ",")
